@@ -25,6 +25,19 @@ Definition p4 : parser (Z * Z * Z * Z) := a <- pZ ;; b <- pZ ;; c <- pZ ;; d <- 
 Definition bslice_with_offset (a : arr QS) (b : Z * Z * Z * Z) : list Z :=
   let '(r0, r1, c0, c1) := b in e4 b ++ e2 (slice_offset (SlBox r0 r1 c0 c1) (nr a) (nc a)).
 
+(* one drawing call on an n x m array: tag 0 circle, 1 rectangle, 2 hexagon *)
+Definition pdraw (n m : Z) : parser (arr QS) :=
+  t <- pZ ;;
+  if t =? 0 then
+    (r <- pQ ;; s0 <- pQ ;; s1 <- pQ ;; aa <- pbool ;; pret (@circle QS qle qsqrt n m r s0 s1 aa))
+  else if t =? 1 then
+    (w <- pQ ;; h <- pQ ;; s0 <- pQ ;; s1 <- pQ ;; co <- pQ ;; si <- pQ ;; aa <- pbool ;;
+     pret (@rectangle QS qle n m w h s0 s1 co si aa))
+  else if t =? 2 then
+    (r <- pQ ;; s3 <- pQ ;; s0 <- pQ ;; s1 <- pQ ;; ns <- plist (ppair pQ pQ) ;; aa <- pbool ;;
+     pret (@hexagon QS qle n m r s3 s0 s1 ns aa))
+  else pfail.
+
 Definition run_c20 (inp : list Z) : list Z :=
   match inp with
   | 1 :: rest =>   (* pad, 2-D *)
@@ -85,6 +98,10 @@ Definition run_c20 (inp : list Z) : list Z :=
         0 :: hex_size rings r g s3 pad ::
         elist (fun p : Z * (Qc * Qc) => fst p :: eQ (fst (snd p)) ++ eQ (snd (snd p)))
               (@hex_shifts QS rings r g s3 rot drop)
+    | None => emalformed end
+  | 24 :: n :: m :: rest =>   (* a history of drawing calls on one array shape: the model has no state *)
+    match pall (plist (pdraw n m)) rest with
+    | Some l => 0 :: elist earrQ l
     | None => emalformed end
   | _ => emalformed
   end.
